@@ -11,11 +11,12 @@ FAMS = [("Sat3", {}), ("Sat3", {}), ("Bool", {}), ("RatU", {"eps_acyclic": True}
 
 
 def generate(rng, tier, shard, nshards):
+    event = aops.variant_event(rng, skip=())
     for M in aops.tlc_automata(shard, nshards):           # (C) the exhaustive family enumerated by TLC
         for s in ([], ["a"], ["a", "a"]):
-            yield aops.event("wcall", {"sr": "Sat3", "M": M, "s": s}, site="WFSA.__call__", feat="tlc-family")
-        yield aops.event("wop", {"sr": "Sat3", "A": M, "fn": "epsremove", "sigma": ["a"], "L": 3}, site="epsremove", feat="tlc-family")
-        yield aops.event("wtotal", {"sr": "Sat3", "M": M}, site="total_weight", feat="tlc-family")
+            yield event("wcall", {"sr": "Sat3", "M": M, "s": s}, site="WFSA.__call__", feat="tlc-family")
+        yield event("wop", {"sr": "Sat3", "A": M, "fn": "epsremove", "sigma": ["a"], "L": 3}, site="epsremove", feat="tlc-family")
+        yield event("wtotal", {"sr": "Sat3", "M": M}, site="total_weight", feat="tlc-family")
     n = 40 if tier == "quick" else 400
     L = 3 if tier == "quick" else 4
     for i in range(n):
@@ -30,14 +31,14 @@ def generate(rng, tier, shard, nshards):
                            for _ in range(rng.randint(1, 3))]
             feat = feat + "+history"
         for s in fam.strings(("a", "b"), L):
-            yield aops.event("wcall", dict(base, s=list(s)), site="WFSA.__call__", feat=feat)
-        yield aops.event("wop", {"sr": srn, "A": M, "fn": "epsremove", "sigma": ["a", "b"], "L": L, "style": style, "pre": base.get("pre")},
+            yield event("wcall", dict(base, s=list(s)), site="WFSA.__call__", feat=feat)
+        yield event("wop", {"sr": srn, "A": M, "fn": "epsremove", "sigma": ["a", "b"], "L": L, "style": style, "pre": base.get("pre")},
                          site="epsremove", feat=feat)
         if acyc_total:
-            yield aops.event("wtotal", base, site="total_weight", feat=feat)
+            yield event("wtotal", base, site="total_weight", feat=feat)
         elif srn in ("RatU", "Rat"):
             M2 = aops.rand_wfsa(rng, srn, nS=3, narcs=5, acyclic=True)
-            yield aops.event("wtotal", {"sr": srn, "M": M2, "style": style}, site="total_weight", feat=aops.afeat(M2))
+            yield event("wtotal", {"sr": srn, "M": M2, "style": style}, site="total_weight", feat=aops.afeat(M2))
 
 
 def selftests(events, rng):
